@@ -77,12 +77,14 @@ package playlist
 //@   props C14 C15
 //@   ensures [C14,C15] result in /#EXT-X-PART-INF:PART-TARGET={DF}\n/
 //@   emits [C14] "PART-TARGET=" t.PartTarget
+//@   ensures [C14] contains(result, "#EXT-X-PART-INF:")
 //@ end
 
 //@ func MediaSkip.marshal
 //@   props C14 C15
 //@   ensures [C14,C15] result in /#EXT-X-SKIP:SKIPPED-SEGMENTS={INT}\n/
 //@   emits [C14] "SKIPPED-SEGMENTS=" t.SkippedSegments
+//@   ensures [C14] contains(result, "#EXT-X-SKIP:")
 //@ end
 
 //@ func MediaServerControl.marshal
@@ -95,6 +97,7 @@ package playlist
 //@   ensures [C14] t.CanBlockReload ==> contains(result, "CAN-BLOCK-RELOAD=YES")
 //@   ensures [C14] t.PartHoldBack != nil ==> contains(result, "PART-HOLD-BACK=")
 //@   ensures [C14] t.CanSkipUntil != nil ==> contains(result, "CAN-SKIP-UNTIL=")
+//@   ensures [C14] contains(result, "#EXT-X-SERVER-CONTROL:")
 //@ end
 
 //@ func MediaPreloadHint.marshal
@@ -106,6 +109,7 @@ package playlist
 // a field that is set is written (C14: nothing the value carries is dropped by the encoder)
 //@   ensures [C14] t.ByteRangeStart != 0 ==> contains(result, ",BYTERANGE-START=")
 //@   ensures [C14] t.ByteRangeLength != nil ==> contains(result, ",BYTERANGE-LENGTH=")
+//@   ensures [C14] contains(result, "#EXT-X-PRELOAD-HINT:")
 //@ end
 
 //@ func MediaMap.marshal
@@ -115,6 +119,7 @@ package playlist
 //@   emits [C14] "URI=\"" t.URI
 // a field that is set is written (C14)
 //@   ensures [C14] t.ByteRangeLength != nil ==> contains(result, ",BYTERANGE=")
+//@   ensures [C14] contains(result, "#EXT-X-MAP:")
 //@ end
 
 //@ func MediaKey.marshal
@@ -132,6 +137,7 @@ package playlist
 //@   props C14 C15
 //@   ensures [C14,C15] result in /#EXT-X-START:TIME-OFFSET={SDF}\n/
 //@   emits [C14] "TIME-OFFSET=" t.TimeOffset
+//@   ensures [C14] contains(result, "#EXT-X-START:")
 //@ end
 
 //@ func MultivariantVariant.marshal
@@ -194,6 +200,12 @@ package playlist
 //@   emits [C14] "#EXT-X-DISCONTINUITY-SEQUENCE:" *m.DiscontinuitySequence
 //@   emits [C14] "#EXT-X-PLAYLIST-TYPE:" *m.PlaylistType
 //@   emits [C14] "#EXT-X-START:TIME-OFFSET=" m.Start.TimeOffset
+// C14: an optional top-level tag is written whenever its field is set (stated on the string under construction
+// at the head of the segment loop: everything that precedes the segment list has been written by then)
+//@   loop 1 invariant (m.IndependentSegments ==> contains(ret, "#EXT-X-INDEPENDENT-SEGMENTS\n")) && (m.Start != nil ==> contains(ret, "#EXT-X-START:"))
+//@        && (m.AllowCache != nil ==> contains(ret, "#EXT-X-ALLOW-CACHE:")) && (m.ServerControl != nil ==> contains(ret, "#EXT-X-SERVER-CONTROL:"))
+//@        && (m.PartInf != nil ==> contains(ret, "#EXT-X-PART-INF:")) && (m.DiscontinuitySequence != nil ==> contains(ret, "#EXT-X-DISCONTINUITY-SEQUENCE:"))
+//@        && (m.PlaylistType != nil ==> contains(ret, "#EXT-X-PLAYLIST-TYPE:")) && (m.Map != nil ==> contains(ret, "#EXT-X-MAP:")) && (m.Skip != nil ==> contains(ret, "#EXT-X-SKIP:"))
 //@ end
 
 //@ func Multivariant.Marshal
@@ -201,6 +213,9 @@ package playlist
 //@   requires forall(i, (0 <= i && i < len(m.Variants)) ==> m.Variants[i] != nil) && forall(i, (0 <= i && i < len(m.Renditions)) ==> m.Renditions[i] != nil)
 //@   ensures [C15,C16] result0 in /#EXTM3U\n#EXT-X-VERSION:{INT}\n(#EXT-X-INDEPENDENT-SEGMENTS\n)?(#EXT-X-START:TIME-OFFSET={SDF}\n)?(\n(#EXT-X-MEDIA:{ATTRS}\n)*)?\n(#EXT-X-STREAM-INF:{ATTRS}\n{URILINE}\n)*/
 //@   emits [C14,C16] "#EXT-X-VERSION:" m.Version
+// C14: an optional top-level tag is written whenever its field is set
+//@   loop 1 invariant (m.IndependentSegments ==> contains(ret, "#EXT-X-INDEPENDENT-SEGMENTS\n")) && (m.Start != nil ==> contains(ret, "#EXT-X-START:"))
+//@   loop 2 invariant (m.IndependentSegments ==> contains(ret, "#EXT-X-INDEPENDENT-SEGMENTS\n")) && (m.Start != nil ==> contains(ret, "#EXT-X-START:"))
 //@ end
 
 // ---------------------------------------------------------------------------------------------
